@@ -121,6 +121,11 @@ fn it_entry_int(r: Option<usize>) -> Value {
     }
 }
 
+/// size_hint as [3, lower, upper or -1]
+fn size_hint_entry(h: (usize, Option<usize>)) -> Value {
+    json!([3, res_val(h.0), h.1.map(res_val).unwrap_or(NONE)])
+}
+
 /// n = next, b = next_back, l = len
 pub fn run_de_iter<I, T>(mut it: I, ops: &str, f: impl Fn(T) -> u128) -> Vec<Value>
 where
@@ -135,6 +140,7 @@ where
             'k' => it_entry_sym(it.nth(3).map(&f)),
             'B' => it_entry_sym(it.nth_back(2).map(&f)),
             'l' => json!([2, res_val(it.len())]),
+            'h' => size_hint_entry(it.size_hint()),
             _ => json!([NA]),
         });
         match r {
@@ -163,6 +169,7 @@ where
                 Some(l) => json!([2, res_val(l(&it))]),
                 None => json!([NA]),
             },
+            'h' => size_hint_entry(it.size_hint()),
             _ => json!([NA]),
         });
         match r {
